@@ -153,7 +153,7 @@ def check_then_insert(run, f, det):
     for blk in b.blocks:
         if blk.idx not in cfg.live or blk.term["k"] != "switch":
             continue
-        subj = tr.norm(tr.operand(blk.term["discr"]))
+        subj = tr.norm(tr.operand_at(blk.idx, blk.term["discr"]))
         if subj[0] == "binop" and subj[1] == "Eq":
             eq_blocks.append((blk.idx, subj))
     caller_id, callee_id = _ids(det)
@@ -519,7 +519,7 @@ def direction(run, f, det):
     b, cfg = det.body, det.cfg
     for blk in b.blocks:
         if blk.term["k"] == "switch":
-            s = strip_wrappers(tr.norm(tr.operand(blk.term["discr"])))
+            s = strip_wrappers(tr.norm(tr.operand_at(blk.idx, blk.term["discr"])))
             if s == ("call", hp, det.hp_def):
                 t = blk.term
                 true_t = [tgt for v, tgt in t["arms"] if int(v) != 0] or [t["otherwise"]]
